@@ -642,3 +642,36 @@ Example C09_x86_load_example :
       sget s' ex_sp 2 = Some 11 /\ sget s' ex_sp 3 = Some (HEAP_BASE + 128) /\ sget s' ex_sp 10 = Some 55 /\ rget s' 4 = Some 777.
 Proof. exact x86_load_example. Qed.
 Print Assumptions C09_x86_load_example.
+
+(* the memory part of `substitute` at the x86-64 level: the code `code_weakening_contraction` emits for
+   the transposed map tm - an erase_block or a share_block_n per non-ext binding, in the order of tm -
+   refines exactly the operation list the instrumented machine performs for the substitution
+   (Sem/AxHeap.v `subst_ops` = these `rc_op`s for tm = Backend.transpose re (ctx_of he)).  `hb lo hi`:
+   all headers and the free pointer are lo above min_int and hi below max_int, so the counts do not wrap *)
+From SCC Require Import Proof.X86MemSubstOps.
+Theorem C09_x86_substitute_memory :
+  forall im (ptr : binding -> Z) context F sp tm lc cs lc' pos s f,
+    code_weakening_contraction x86_backend tm context lc = Ok (cs, lc') ->
+    code_at im pos cs -> labels_at im pos cs -> frame_ok s sp -> rget s FREE = Some f ->
+    (forall b targets t, In (b, targets) tm -> bchi b <> AxSyn.Ext ->
+       variable_temporary x86_backend Fst context (idn (bvar b)) = Ok t ->
+       lget s sp t = Some (ptr b) /\ (ptr b = 0 \/ is_blk (ptr b))) ->
+    let acts := tm_acts ptr context tm in
+    hb (n_erase acts) (n_share acts) s f -> n_share acts <= 2 ^ 31 - 1 -> n_erase acts <= 2 ^ 31 - 1 ->
+    let ops := flat_map (fun bt : binding * list N => rc_op (bchi (fst bt)) (ptr (fst bt)) (length (snd bt))) tm in
+    exists s', steps im pos s (pnth pos (length cs)) s' /\
+      st_eqB (abs_heap F s') (hrun ops (abs_heap F s)) /\
+      same_but_temp_free s s' /\ frame_ok s' sp /\
+      rget s' FREE = Some (Heap.free (hrun ops (abs_heap F s))).
+Proof. exact x86_weakening_contraction_ok. Qed.
+Print Assumptions C09_x86_substitute_memory.
+
+Example C09_x86_substitute_memory_example :
+  let ops := flat_map (fun bt : binding * list N => rc_op (bchi (fst bt)) (exs_ptr (fst bt)) (length (snd bt))) exs_tm in
+  ops = Heap.OErase (HEAP_BASE + 64) :: Heap.OShare (HEAP_BASE + 128) 1 :: nil /\
+  exists lc', code_weakening_contraction x86_backend exs_tm exs_ctx 0 = Ok (exs_code, lc') /\
+  exists s', steps (mk_image exs_code) 1 exs_state (pnth 1 (length exs_code)) s' /\
+    st_eqB (abs_heap (HEAP_BASE + 192) s') (hrun ops (abs_heap (HEAP_BASE + 192) exs_state)) /\
+    rget s' FREE = Some (HEAP_BASE + 64) /\ hword s' (HEAP_BASE + 64) = HEAP_BASE + 192 /\ hword s' (HEAP_BASE + 128) = 1.
+Proof. exact x86_substitute_memory_example. Qed.
+Print Assumptions C09_x86_substitute_memory_example.
